@@ -559,6 +559,7 @@ def build_inputs(ctx, n_fuzz):
     # seed-independent: static references x forms x positions; attribute names x back ends x values x scopes
     inputs += gen_fuzz.static_reference_cases()
     inputs += gen_fuzz.leaf_kind_cases()
+    inputs += gen_fuzz.param_kind_cases()
     inputs += gen_fuzz.twin_cases()[0]
     inputs += gen_fuzz.attribute_cases()
     # seed-independent: identifier shapes in every naming position; 64-bit ranges with user-written and synthesized expressions
